@@ -18,6 +18,9 @@ Request: `<api> <ver> <opsOk> <nodes> <meta> <warm> <req>`
 * a request is `<inputs>><outputs>`; inputs `,`-separated `id/dtype/flags/shape` (flags: `o` owned | `v` view,
   then `s` for a sequence; shape `.` or `x`-separated), outputs `,`-separated ids; `-` = empty list.
 Answer: `ok`, `ok <ids|->` (partial), `err:<class>` or `panic`.
+
+Also `assume <nodes>` (the graph hypotheses of the theorems, evaluated on the IR of a real graph or
+subgraph → `ok` | `violated:<list>`) and `wrap <kind>` (Model-level wrappers, see `wrapAnswer`).
 -/
 namespace RtenVerif.Driver.C26
 open RtenVerif.Driver RtenVerif.Graph RtenVerif.Planner RtenVerif.PlanCache RtenVerif.Driver.PlanCacheProto
@@ -36,6 +39,11 @@ def handle (line : String) : String :=
         let c := cacheAfter v m true warm none
         showOutcome (run v m opsOk c r.inputs r.outs).1
     | _, _, _, _ => "bad-request"
+  | ["assume", ns] =>
+    match parseNodes ns with
+    | some nodes => assumeAnswer { nodes := nodes }
+    | none => "bad-request"
+  | ["wrap", kind] => wrapAnswer kind
   | _ => "bad-request"
 
 end RtenVerif.Driver.C26
